@@ -123,6 +123,47 @@ pub fn gh() -> Group {
     Group { name: "GH", describe: "GH: full product rate(19) x block size(19) x bps(5), mono, one full block + 17 samples".into(), cases }
 }
 
+/// GL: block lengths at every block-size code class of the frame header (576 * 2^n and 256 * 2^n also
+/// beyond the values that have a code of their own, their neighbours, the 8-/16-bit explicit classes),
+/// each as a lone short frame under block size 32767 and as the configured block size.
+pub fn gl() -> Group {
+    let mut lens: Vec<u32> = vec![1, 2, 15, 16, 17, 31, 32, 33, 191, 192, 193, 255, 257, 65, 1000, 32766, 32767];
+    for k in 0..=7u32 {
+        for base in [576u32, 256] {
+            let v = base << k;
+            for l in [v - 1, v, v + 1] {
+                if l <= 32767 {
+                    lens.push(l);
+                }
+            }
+        }
+    }
+    lens.sort_unstable();
+    lens.dedup();
+    let mut cases = Vec::new();
+    let base = base_case(0);
+    for &l in &lens {
+        for &(bps, ch) in &[(16u8, 1u8), (24, 2)] {
+            let mut c = base.clone();
+            c.input.bps = bps;
+            c.input.ch = ch;
+            c.input.atoms = [13, 13, 13, 13];
+            c.cfg.use_lpc = false;
+            c.input.bs = 32767;
+            c.input.full = 0;
+            c.input.tail = l;
+            cases.push(c.clone());
+            if l >= 32 && l <= 4700 {
+                c.input.bs = l;
+                c.input.full = 2;
+                c.input.tail = 5;
+                cases.push(c);
+            }
+        }
+    }
+    Group { name: "GL", describe: format!("GL: block lengths {lens:?} as a lone short frame under block size 32767 and (up to 4700) as the block size itself, mono 16 bit and stereo 24 bit"), cases }
+}
+
 pub const G9_ATOMS: [u8; 11] = [20, 21, 22, 23, 4, 18, 26, 24, 28, 29, 30];
 
 /// G9: width{16,20,24} x loud atoms x Rice cap 0..=14 x order selection x {fixed,lpc} x channel setups x block size.
